@@ -29,7 +29,7 @@ pub fn run_check(replay: Option<Value>) -> i32 {
         dim("tol", &tols),
         dim("first_step", &fss),
         dim("max_step", &mss),
-        dim("api", &["low-level SolOut", "solve_ivp dense", "solve_ivp dense + terminal event", "solve_ivp without dense"]),
+        dim("api", &["low-level SolOut", "solve_ivp dense", "solve_ivp dense + terminal event", "solve_ivp without dense", "solve_ivp dense + max_steps=5 (run ends early)", "solve_ivp dense + first_step=2e-13"]),
     ];
     lattice(&mut rep, "c06", &dims, only.as_deref(), |key, idx| {
         let m = M6[idx[0]];
@@ -105,6 +105,16 @@ pub fn run_check(replay: Option<Value>) -> i32 {
             out.fp = Some(h.as_u128());
         } else {
             c.dense = api != 3;
+            if api == 4 {
+                c.max_steps = Some(5);
+            }
+            if api == 5 {
+                // accepted steps shorter than every absolute time-matching constant are steps too
+                if m == Method::RK4 || idx[4] != 0 {
+                    return None;
+                }
+                c.first_step = Some(dir * 2e-13);
+            }
             if api == 2 {
                 c.events = vec![EventSpec::new(EvKind::T(0.613 * xend)).term(1), EventSpec::new(EvKind::Cos(2.0))];
             }
@@ -134,9 +144,14 @@ pub fn run_check(replay: Option<Value>) -> i32 {
                     return Some(out);
                 }
                 out.tag("terminal-stop");
+            } else if api == 4 && s.status == Status::NeedLargerNMax {
+                out.tag("dense-after-early-end");
             } else if s.status != Status::Success {
                 viol!("outcome", format!("status {:?}", s.status));
                 return Some(out);
+            }
+            if api == 5 && s.t.len() >= 2 && (s.t[1] - s.t[0]).abs() <= 1e-12 {
+                out.tag("dense-with-tiny-step");
             }
             let (a, b) = match s.sol_span() {
                 Some(x) => x,
@@ -186,6 +201,26 @@ pub fn run_check(replay: Option<Value>) -> i32 {
                 }
                 Err(e) => viol!("sol-many", format!("sol_many over a grid inside the span fails: {:?}", e)),
             }
+            // a batch is a set of independent queries: reversed and interleaved orders give the same values
+            let n_g = grid.len();
+            let orders: [Vec<usize>; 2] = [(0..n_g).rev().collect(), (0..n_g).map(|i| (i * 13) % n_g).collect()];
+            for ord in &orders {
+                let ts: Vec<f64> = ord.iter().map(|&i| grid[i]).collect();
+                match s.sol_many(&ts) {
+                    Ok(many) => {
+                        for (j, v) in many.iter().enumerate() {
+                            if let Ok(w) = &singles[ord[j]] {
+                                if v.iter().zip(w).any(|(x, y)| x.to_bits() != y.to_bits()) {
+                                    viol!("sol-many-order", format!("sol_many over an unsorted batch differs from sol at t={:e} (position {} of the batch)", ts[j], j));
+                                    break;
+                                }
+                            }
+                        }
+                        out.validated += 1;
+                    }
+                    Err(e) => viol!("sol-many-order", format!("sol_many over an unsorted batch inside the span fails: {:?}", e)),
+                }
+            }
             // continuity across interior boundaries
             for k in 1..s.t.len().saturating_sub(1) {
                 let t = s.t[k];
@@ -203,7 +238,8 @@ pub fn run_check(replay: Option<Value>) -> i32 {
             }
             // clearly outside: out-of-range error
             let w = (b - a).abs();
-            for t in [a - dir * 1e-9 * w.max(1.0) - dir * 1e-6, b + dir * 1e-9 * w.max(1.0) + dir * 1e-6, a - dir * w, b + dir * w] {
+            let (lo, hi) = (a.min(b), a.max(b));
+            for t in [lo - 1e-9 * w.max(1.0) - 1e-6, hi + 1e-9 * w.max(1.0) + 1e-6, lo - w.max(1e-6), hi + w.max(1e-6)] {
                 let e = format!("{:?}", s.sol(t));
                 if !e.contains("OutOfRange") {
                     viol!("out-of-range", format!("sol({:e}) outside the span [{:e},{:e}] returned {}", t, a, b, &e[..e.len().min(60)]));
@@ -254,10 +290,10 @@ pub fn run_check(replay: Option<Value>) -> i32 {
         return if rep.violations.is_empty() { 0 } else { 1 };
     }
     rep.violations.extend(regress::violations_for("C06"));
-    for t in ["dense-run", "terminal-stop", "dense-disabled", "zero-length", "bdf-order-raise", "bdf-order-drop", "with-rejections"] {
+    for t in ["dense-run", "terminal-stop", "dense-disabled", "zero-length", "bdf-order-raise", "bdf-order-drop", "with-rejections", "dense-after-early-end", "dense-with-tiny-step"] {
         rep.require(t, 1);
     }
-    rep.rule = "full product of the lattice; low-level runs: every accepted step's interpolant is evaluated at both ends and the midpoint inside the callback; solve_ivp runs: sol at every stored sample, on a 33-point grid over sol_span, 2e-12 left/right of every interior boundary, clearly outside, sol_many vs sol, with and without a terminal event and with dense_output disabled; distinct = distinct RHS fingerprints x api".into();
+    rep.rule = "full product of the lattice; low-level runs: every accepted step's interpolant is evaluated at both ends and the midpoint inside the callback; solve_ivp runs: sol at every stored sample, on a 33-point grid over sol_span, 2e-12 left/right of every interior boundary, clearly outside, sol_many vs sol (sorted, reversed and interleaved batches), with and without a terminal event, with dense_output disabled, for runs that end early (max_steps=5, NeedLargerNMax) and for runs whose first accepted step is 2e-13 long; distinct = distinct RHS fingerprints x api".into();
     rep.assumptions.push("endpoint identities to 64 eps (1+|y|); continuity across a boundary to L*8e-12 where L is the alphabet's Lipschitz bound".into());
     rep.finish()
 }
